@@ -1,14 +1,26 @@
 import UrcuVerif.Lfht.Conc.C06Thms
+import UrcuVerif.Lfht.Conc.Mark3
+import UrcuVerif.Lfht.Conc.OneWinner
 import UrcuVerif.Props.C05
 /-!
 # C06 — hash table: unique adds never expose duplicate keys; replace is atomic
-(statements and final theorems; helper lemmas in `Lfht/Conc/Inv*.lean`, `Vis.lean`, `C06Thms.lean`)
+(statements and final theorems; helper lemmas in `Lfht/Conc/Inv*.lean`, `Vis.lean`, `C06Thms.lean`, `InvK*.lean`,
+`Mark*.lean`, `OneWinner.lean`)
 
 Model and quantifiers as in `Props/C05.lean` / `Props/C07.lean`.
 
-Proved for ALL reachable states — the floor of DESIGN §4 C06: `replace_atomic`, `unique_inserts_at_run_head`,
-`replace_single_owner`, and (from `replace_atomic` + the visible-set theorem of C05) `replace_keeps_key_visible`.
-The targets `uniq_in_L`, `no_two_visible`, `one_winner` are stated in `C06_full`.
+Proved for ALL reachable states (`C06_full_holds`):
+* the floor of DESIGN §4 C06: `replace_atomic`, `unique_inserts_at_run_head`, `replace_single_owner`, and (from
+  `replace_atomic` + the visible-set theorem of C05) `replace_keeps_key_visible`;
+* `uniq_in_L` — under the usage restriction of C06 on a key (only `add_unique` / `add_replace` / `replace`, always the
+  same hash) at most one visible node carries it.  Invariant (layer K, *scan coverage*): while an adder scans the run
+  of equal reversed hashes, and from the end of the scan to its insertion CAS, every visible node with the key that
+  is reachable from the run head it recorded is still ahead of the scan; concurrent unique inserts go in front of
+  that head, replacements right behind the visible node they replace — so a CAS that still finds the recorded
+  head inserts the only visible node with the key;
+* `no_two_visible` — inside one read-side section a traversal (lookup + `next_duplicate`s, `first`/`next`s, with
+  `del` / `replace` / adds of the same thread in between) is never handed two nodes with such a key;
+* `one_winner` — what `add_unique` returns instead of its own node was visible, with the key, during the call.
 -/
 namespace UrcuVerif.Lfht.Conc
 open UrcuVerif
@@ -51,27 +63,30 @@ inductive ReachU (c : Cfg) (k hk : Nat) : State → Prop
   | init : ReachU c k hk init
   | step {s s' t l o} : ReachU c k hk s → step c s t l = some (s', o) → AllowedU k hk l → ReachU c k hk s'
 
-/-- **uniq_in_L** (target): `L` never holds two visible nodes with a unique-only key -/
+/-- **uniq_in_L**: `L` never holds two visible nodes with a unique-only key -/
 def UniqInL : Prop :=
   ∀ c k hk s, Current c → ReachU c k hk s → ∀ p q, vis s p → vis s q → s.key p = k → s.key q = k → p = q
 
-/-- **no_two_visible** (target): a walk — lookup + `next_duplicate`s, or `first`/`next`s inside one read-side
-section — never returns two nodes with a unique-only key.  On executions: two `iter` outputs of the same thread
-with key `k`, without an `runlock` of that thread in between, are the same node. -/
+/-- **no_two_visible**: a traversal inside one read-side section — `cds_lfht_lookup` / `cds_lfht_first`, then any
+number of `cds_lfht_next_duplicate` / `cds_lfht_next` (and `del` / `replace` / adds by the same thread) — is never
+handed two different nodes with a unique-only key.  On executions: `mid` starts with an event of `t` that hands out
+`p` and ends with one that hands out `q`; in between `t` neither leaves the read-side section nor starts a new
+traversal (`Restart` = `runlock`, `callLookup`, `callFirst`). -/
 def NoTwoVisible : Prop :=
-  ∀ c k hk evs s1 t p q w1 w2 pre mid post, Current c → Exec c init evs s1 →
-    (∀ e, e ∈ evs → AllowedU k hk e.2.2.1) →
-    evs = pre ++ mid ++ post →
-    (∃ e, mid.head? = some e ∧ e.2.1 = t ∧ e.2.2.2 = .iter p w1) →
-    (∃ e, mid.getLast? = some e ∧ e.2.1 = t ∧ e.2.2.2 = .iter q w2) →
-    (∀ e, e ∈ mid → e.2.1 = t → e.2.2.1 ≠ .runlock ∧ e.2.2.1 ≠ .callLookup (e.1.th t).hs (e.1.th t).ky) →
-    p ≠ 0 → q ≠ 0 → s1.key p = k → s1.key q = k → p = q
+  ∀ c k hk evs s1 t p q w1 w2 pre mid post e1 e2, Current c → Exec c init evs s1 →
+    (∀ e, e ∈ evs → AllowedU k hk e.2.2.1) → evs = pre ++ mid ++ post →
+    mid.head? = some e1 → e1.2.1 = t → e1.2.2.2 = .iter p w1 →
+    mid.getLast? = some e2 → e2.2.1 = t → e2.2.2.2 = .iter q w2 →
+    (∀ e, e ∈ mid → e.2.1 = t → ¬ Restart e.2.2.1) →
+    p ≠ 0 → q ≠ 0 → e1.1.key p = k → e2.1.key q = k → p = q
 
-/-- **one_winner** (target): an `add_unique` that returns another node returns a node with its key that was
-visible at some instant during the call -/
+/-- **one_winner**: an `add_unique` that returns another node returns a node with its key that was visible at some
+instant during the call (`evs` = the call: it starts with the `callAdd` of `t`, all later events of `t` belong to
+this add, the last event is `t`'s return) -/
 def OneWinner : Prop :=
   ∀ c s0 evs s1 t n h k q, Current c → Reach c s0 → Exec c s0 evs s1 →
-    (∃ e rest, evs = e :: rest ∧ e.2.1 = t ∧ e.2.2.1 = .callAdd .uniq n h k) →
+    (∃ e rest, evs = e :: rest ∧ e.2.1 = t ∧ e.2.2.1 = .callAdd .uniq n h k ∧
+      ∀ e', e' ∈ rest → e'.2.1 = t → (e'.1.th t).op = .add) →
     (∃ e, evs.getLast? = some e ∧ e.2.1 = t ∧ e.2.2.2 = .node q) → q ≠ n →
     ∃ e, e ∈ evs ∧ vis e.1 q ∧ e.1.key q = k
 
@@ -79,7 +94,7 @@ def OneWinner : Prop :=
 def C06_full : Prop :=
   ReplaceAtomic ∧ ReplaceKeepsKeyVisible ∧ UniqueInsertsAtRunHead ∧ ReplaceSingleOwner ∧ UniqInL ∧ NoTwoVisible ∧ OneWinner
 
-/-- the conjuncts proved so far -/
+/-- the conjuncts of the floor (kept for the record; all of `C06_full` is proved below) -/
 def C06_partial : Prop := ReplaceAtomic ∧ ReplaceKeepsKeyVisible ∧ UniqueInsertsAtRunHead ∧ ReplaceSingleOwner
 
 theorem replace_atomic : ReplaceAtomic := by
@@ -106,6 +121,28 @@ theorem replace_single_owner : ReplaceSingleOwner := single_owner_run
 theorem C06_partial_holds : C06_partial :=
   ⟨replace_atomic, replace_keeps_key_visible, unique_inserts_at_run_head, replace_single_owner⟩
 
+theorem allowedU_uniqUse {k hk l} (h : AllowedU k hk l) : UniqUse k hk l := by cases l <;> exact h
+
+/-- the restricted runs are runs, and layer K holds along them -/
+theorem reachU_inv {c k hk s} (hc : Current c) (r : ReachU c k hk s) : Reach c s ∧ InvK k hk s := by
+  induction r with
+  | init => exact ⟨.init, invK_init⟩
+  | step _ st ha ih => exact ⟨.step ih.1 st, invK_step hc ih.1 ih.2 st (allowedU_uniqUse ha)⟩
+
+theorem uniq_in_L : UniqInL := by
+  intro c k hk s hc r p q hp hq kp kq; exact (reachU_inv hc r).2.g.2 p q hp hq kp kq
+
+theorem no_two_visible : NoTwoVisible := by
+  intro c k hk evs s1 t p q w1 w2 pre mid post e1 e2 hc ex hU hs h1 t1 o1 h2 t2 o2 hno p0 q0 kp kq
+  exact no_two_exec hc ex (fun e he => allowedU_uniqUse (hU e he)) hs h1 t1 o1 h2 t2 o2 hno p0 q0 kp kq
+
+theorem one_winner : OneWinner := by
+  intro c s0 evs s1 t n h k q hc r ex hcall hlast hqn; exact one_winner_exec hc r ex hcall hlast hqn
+
+theorem C06_full_holds : C06_full :=
+  ⟨replace_atomic, replace_keeps_key_visible, unique_inserts_at_run_head, replace_single_owner, uniq_in_L, no_two_visible,
+    one_winner⟩
+
 /-! ## Non-vacuity: `add_replace` of a present key, suspended at its CAS, then completed -/
 
 /-- T0 adds node 5 (hash 3, key 30); T1 `add_replace`s node 7 with the same hash and key: scans the run, finds 5,
@@ -131,5 +168,48 @@ example : (runOut c2 init (replRun ++ [(1, .casRepl), (1, .ldHeadG), (1, .ldNext
 example : (runOut c2 init ([(0, .rlock), (0, .callAdd .plain 5 3 30), (0, .ldSize), (0, .ldHeadA), (0, .casIns),
       (1, .rlock), (1, .callAdd .uniq 7 3 30), (1, .ldSize), (1, .ldHeadA), (1, .ldNextA), (1, .ldWalk), (1, .ldAssertW)])).map
       (fun x => (x.1.L, x.2.getLast?)) = some ([1, 5], some (.node 5)) := by decide
+
+/-! ## Non-vacuity of `uniq_in_L` / `one_winner` / `no_two_visible` -/
+
+theorem run_reachU {c k hk s sch s'} (r : ReachU c k hk s) (h : run c s sch = some s')
+    (ha : ∀ e, e ∈ sch → AllowedU k hk e.2) : ReachU c k hk s' := by
+  induction sch generalizing s with
+  | nil => simp [run] at h; exact h ▸ r
+  | cons a sch ih =>
+    obtain ⟨t, l⟩ := a
+    simp only [run] at h
+    split at h
+    · next s1 o e => exact ih (.step r e (ha (t, l) List.mem_cons_self)) h (fun e he => ha e (List.mem_cons_of_mem _ he))
+    · cases h
+
+/-- T0 and T1 race to `add_unique` key 30 (hash 3): both reach the insertion CAS on the bucket with the same
+expected value; T0 wins, T1's CAS fails, T1 rescans, finds 5 and returns it -/
+def raceU : List (Nat × Label) :=
+  [(0, .rlock), (1, .rlock), (0, .callAdd .uniq 5 3 30), (1, .callAdd .uniq 7 3 30),
+   (0, .ldSize), (1, .ldSize), (0, .ldHeadA), (1, .ldHeadA), (0, .casIns), (1, .casIns),
+   (1, .ldHeadA), (1, .ldNextA), (1, .ldWalk), (1, .ldAssertW)]
+
+example : (runOut c2 init (raceU.take 8)).map (fun x => ((x.1.th 0).pc, (x.1.th 1).pc, x.1.L)) =
+    some (.aCas, .aCas, [1]) := by decide
+
+example : (runOut c2 init raceU).map (fun x => (x.1.L, x.2.drop 8)) =
+    some ([1, 5], [.node 5, .unit, .unit, .unit, .unit, .node 5]) := by decide
+
+/-- the run respects the usage restriction on key 30, so `uniq_in_L` applies to its states -/
+example : ∃ s, ReachU c2 30 3 s ∧ vis s 5 ∧ s.key 5 = 30 ∧ (s.th 1).pc = .aCas ∧ s.key (s.th 1).node = 30 :=
+  ⟨(run c2 init (raceU.take 9)).get (by decide),
+   run_reachU .init (Option.some_get _).symm (by simp [raceU, AllowedU]), ⟨by decide, by decide, by decide⟩, by decide,
+   by decide, by decide⟩
+
+/-- a reader finds 5; `add_replace` swaps 7 in for 5; the reader's `next_duplicate` does not hand out 7 -/
+def walkRepl : List (Nat × Label) :=
+  [(0, .rlock), (0, .callAdd .uniq 5 3 30), (0, .ldSize), (0, .ldHeadA), (0, .casIns),
+   (1, .rlock), (1, .callLookup 3 30), (1, .ldSize), (1, .ldHeadL), (1, .ldWalk), (1, .ldAssertW),
+   (0, .callAdd .repl 7 3 30), (0, .ldSize), (0, .ldHeadA), (0, .ldNextA), (0, .ldWalk), (0, .ldAssertW), (0, .casRepl),
+   (1, .callDup 30)]
+
+example : (runOut c2 init walkRepl).map (fun x => (x.1.L, x.1.nxt 5, x.2.drop 10)) =
+    some ([1, 5, 7], { ptr := 7, rem := true, own := true },
+      [.iter 5 {}, .unit, .unit, .unit, .unit, .unit, .unit, .unit, .iter 0 {}]) := by decide
 
 end UrcuVerif.Lfht.Conc
